@@ -84,6 +84,11 @@ def run_case(case, drv):
         if len(box) > 1500:
             import random
             box = random.Random(case["seed"]).sample(box, 1500) + sorted(adm)[:200]
+        # node positions outside 0..N-1 (negative ones must not wrap around to an existing node)
+        outside = []
+        for (i_, s_, j_, t_) in sorted(adm)[:4]:
+            outside += [(i_ - N, s_, j_, t_), (i_, s_, j_ - N, t_), (i_ - N, s_, j_ - N, t_), (i_ + N, s_, j_, t_)]
+        V = L = None
         lookup = lambda u: o.get_var_index(u[0], float(u[1]), u[2], float(u[3]))                    # noqa: E731
         tup = lambda k: o.get_var_tuple_index(k)                                                       # noqa: E731
         norm = lambda u: None if u is None else (int(u[0]), F(u[1]), int(u[2]), F(u[3]))               # noqa: E731
@@ -171,7 +176,7 @@ def run_case(case, drv):
                 break
         if (u in adm) != ma:
             res.disagree(f"{form} admissibility predicate of the model", u in adm, ma)
-    if form == "seq":
+    if True:
         for u in outside:
             try:
                 r = lookup(u)
@@ -179,11 +184,11 @@ def run_case(case, drv):
                 res.features.append("outside-tuple:IndexError")
                 continue
             except Exception as e:  # noqa
-                res.fail("seq:lookup-outside-raises", f"tuple {u} outside the index ranges raised {e!r}")
+                res.fail(f"{form}:lookup-outside-raises", f"tuple {core.jsonable(u)} outside the index ranges raised {e!r}")
                 break
             res.features.append("outside-tuple:" + ("none" if r is None else "index"))
             if r is not None:
-                res.fail("seq:lookup-inadmissible", f"tuple {u} lies outside the index ranges (V={V}, L={L}, N={N}) but maps to index {int(r)}")
+                res.fail(f"{form}:lookup-inadmissible", f"tuple {core.jsonable(u)} lies outside the index ranges (V={V}, L={L}, N={N}) but maps to index {int(r)}")
                 break
     for k, u in zip(idxs, impl_tup):
         if k < n:
